@@ -156,9 +156,9 @@ var splitPreamble = []Op{
 // C05 in the E-DB interpreter: transactions on disjoint tables interleaved
 // with initializer completions and table registrations; a Commit must leave
 // the committed state of every table it did not target alone.
-var profC05 = Profile{W: with(baseWeights(), map[int]int{opBegin: 4, opCommit: 7, opRegInit: 2, opMarkDone: 3, opNewTable: 2, opSnapshot: 1}), TwoTxns: true, PreambleOneIn: 6, Preambles: [][]Op{multiInitPreamble}}
+var profC05 = Profile{W: with(baseWeights(), map[int]int{opBegin: 4, opCommit: 7, opRegInit: 2, opMarkDone: 3, opNewTable: 2, opSnapshot: 1}), TwoTxns: true, EmptyBegin: true, PreambleOneIn: 6, Preambles: [][]Op{multiInitPreamble}}
 
-const ruleC05DB = "histories of 1-3 tables (plus tables registered in the middle of the case) with one or two open write transactions on overlapping or disjoint table lists, initializers registered and completed, commits and aborts in any order; after every Commit the committed state of every table the transaction did not hold must equal the model (no committed write lost or overwritten by a stale copy), and a new transaction sees everything committed earlier. Non-trivial = two transactions were open at once and one of them committed writes while the other was open; distinct by case encoding."
+const ruleC05DB = "histories of 1-3 tables (plus tables registered in the middle of the case) with one or two open write transactions on overlapping, disjoint or empty table lists, initializers registered and completed, commits and aborts in any order; after every Commit the committed state of every table the transaction did not hold must equal the model (no committed write lost or overwritten by a stale copy), and a new transaction sees everything committed earlier. Non-trivial = two transactions were open at once and one of them committed writes while the other was open; distinct by case encoding."
 
 func TestC05LostWrites(t *testing.T) {
 	dbTest(t, "C05", "TestC05LostWrites", ruleC05DB, profC05, Options{})
